@@ -207,6 +207,7 @@ type Interp struct {
 	unsupSeen map[string]bool
 	unwindSeen map[string]bool
 	candSeen map[string]int
+	rnUsed   bool // some float operation was abstracted by the uninterpreted rounding function
 	built map[*ssa.Package]bool
 	strIDs map[string]int64
 	aborted bool
@@ -623,6 +624,47 @@ func (in *Interp) obligation(st *State, id, kind, site string, cond *Term, msg s
 		in.candSeen[key]++
 		if in.candSeen[key] <= 3 {
 			in.Res.Candidates = append(in.Res.Candidates, Candidate{ID: id, Kind: kind, Site: site, Model: model, PCSize: len(st.PC), Msg: msg})
+			// Rounded float arithmetic is over-approximated (uninterpreted RN within error bounds), so a model may
+			// rely on a rounding that IEEE-754 does not produce for these inputs. Offer a few more models of the
+			// same negated obligation (different inputs); the driver reports whichever reproduces natively.
+			if in.rnUsed && in.Cfg.Fixed == nil {
+				extra := []*Term{Not(cond)}
+				if b, ok := cond.ConstBool(); ok && !b {
+					extra = nil
+				}
+				// spread the alternatives over the input space: pseudo-random residues and growing magnitudes
+				primes := []int64{1009, 10007, 100003, 997, 9973, 99991, 1013, 10009, 100019, 991, 9967, 99989}
+				for k := 0; k < len(primes); k++ {
+					cons := append([]*Term{}, extra...)
+					for vi, v := range st.Inputs {
+						if v.Sort != SInt || v.Lo == nil || v.Hi == nil {
+							continue
+						}
+						span := new(big.Rat).Sub(v.Hi, v.Lo)
+						if span.Cmp(big.NewRat(4096, 1)) < 0 {
+							continue
+						}
+						p := primes[(k+vi)%len(primes)]
+						res := (int64(k)*7919 + int64(vi)*104729 + 13) % p
+						cons = append(cons, Eq(EMod(v, IntC(p)), IntC(res)))
+						if k%3 != 0 {
+							lb := new(big.Int).Lsh(big.NewInt(1), uint(3*k))
+							if new(big.Rat).SetInt(lb).Cmp(v.Hi) < 0 {
+								cons = append(cons, Ge(v, BigC(lb)))
+							}
+						}
+					}
+					if len(cons) == len(extra) {
+						break
+					}
+					in.Res.OblQ++
+					r2, m2 := in.Sol.ModelWith(st.Inputs, cons...)
+					if r2 != Sat {
+						continue
+					}
+					in.Res.Candidates = append(in.Res.Candidates, Candidate{ID: id, Kind: kind, Site: site, Model: m2, PCSize: len(st.PC), Msg: msg, Tag: "alt"})
+				}
+			}
 		}
 	}
 	// continue under the assumption that the obligation holds (if possible)
@@ -718,6 +760,35 @@ func (in *Interp) obligationExcl(st *State, s *OblStat, id, kind, site string, c
 		}
 		in.assume(st, cond)
 	}
+}
+
+// blockModel returns a constraint that excludes the given assignment of the integer/boolean inputs.
+func blockModel(vars []*Term, model map[string]string) *Term {
+	var alts []*Term
+	for _, v := range vars {
+		val, ok := model[v.Name]
+		if !ok {
+			continue
+		}
+		switch v.Sort {
+		case SInt:
+			n, ok := new(big.Int).SetString(val, 10)
+			if !ok {
+				continue
+			}
+			alts = append(alts, Not(Eq(v, BigC(n))))
+		case SBool:
+			alts = append(alts, Not(Eq(v, BoolC(val == "true"))))
+		}
+	}
+	if len(alts) == 0 {
+		return nil
+	}
+	r := alts[0]
+	for _, a := range alts[1:] {
+		r = Or(r, a)
+	}
+	return r
 }
 
 func clip(s string, n int) string {
